@@ -46,7 +46,7 @@ Theorem tx_refines k ops :
 Proof.
   intros Hk Hwf. unfold run_tx, ref_tx.
   destruct (run_sim k ops (new_full k) (ref_begin (world_of k)) (R_init k) Hwf) as (Hrets & HR).
-  pose proof (Inv_run ops (new_full k) (Inv_new k)) as HI.
+  pose proof (Inv_run ops (new_full k) (Inv_new k (proj2 Hk))) as HI.
   destruct (run ops (new_full k)) as [f rs]. destruct (rrun ops (ref_begin (world_of k))) as [r xs].
   cbn [fst snd] in *. destruct HR as [HB HC HCl HN HRv].
   assert (Hkp : kp (core f) = k) by exact HB.
@@ -54,12 +54,12 @@ Proof.
   { intro a. eapply committed_at_weq; [apply ref_commit_veq, HC|].
     apply commit_writes_visible; auto. rewrite Hkp. exact Hk. }
   split; [exact Hrets|]. split; [exact Hcm|]. split.
-  - intros a Ha ky. destruct (Hcm a) as [A B]. rewrite Ha in A. rewrite B.
+  - split; [|apply commit_code_table; assumption]. intros a Ha ky. destruct (Hcm a) as [A B]. rewrite Ha in A. rewrite B.
     cbn [ref_commit w_acct w_stor] in A |- *. destruct (v_acct (cur r) a) as [x|] eqn:Hx.
     + destruct (av_suic x); [reflexivity|contradiction].
     + rewrite <- (eq_acct _ _ HC a) in Hx. rewrite <- (eq_stor _ _ HC a ky).
       simpl in Hx. destruct (lookup (core f) a) eqn:Hl; [discriminate|].
-      simpl. rewrite Hl. rewrite <- Hkp in Hk. apply Hk. apply lookup_none_kobj_acct, Hl.
+      simpl. rewrite Hl. rewrite <- Hkp in Hk. apply (proj1 Hk). apply lookup_none_kobj_acct, Hl.
   - intros Hw. split; intros a; [|intro ky; apply (Hcm a)].
     destruct (Hcm a) as [A _]. simpl w_acct at 1.
     destruct (w_acct (ref_commit (cur r)) a) as [x|] eqn:Hx, (k_acct (commit (core f)) a) as [y|]; try contradiction; [|reflexivity].
@@ -94,7 +94,7 @@ Proof.
 Qed.
 
 Lemma kwf_empty : kwf empty_keeper.
-Proof. intros a _ ky. reflexivity. Qed.
+Proof. split; [intros a _ ky; reflexivity|intros a x H; discriminate]. Qed.
 
 (** ** ApplyEvmMsg arithmetic *)
 (** EIP-3529: refund = min(gasUsed / quotient, refund counter) — go-ethereum's
@@ -278,3 +278,19 @@ Qed.
 Example ex_hist_run : snd (run_txs empty_keeper [ex_ops; ex_tx2]) =
   [snd (run_tx empty_keeper ex_ops); [[0]; []; []; [9]; [9]]].
 Proof. vm_compute. reflexivity. Qed.
+
+(** ** shared bytecode: a contract that self-destructs does not take the code of its siblings with it *)
+Corollary code_retrievable_after_tx k ops :
+  kwf k -> wf_run (k_stor k) ops (ref_begin (world_of k)) ->
+  forall a x, k_acct (fst (run_tx k ops)) a = Some x -> ka_code x = 0 \/ k_code (fst (run_tx k ops)) (ka_code x) = true.
+Proof. intros Hk Hwf. destruct (tx_refines k ops Hk Hwf) as (_ & _ & [_ Hc] & _). exact Hc. Qed.
+
+(** two contracts (1 and 2) with the same code 3; contract 1 self-destructs in the second transaction *)
+Definition ex_shared : list (list op) :=
+  [ [OSetNonce 1 1; OSetCode 1 3; OSetNonce 2 1; OSetCode 2 3; OAddBalance 1 1000000000000];
+    [OGetBalance 1; OAddBalance 0 1000000000000; OSuicide 1] ].
+
+Example ex_shared_code_survives :
+  let k := fst (run_txs empty_keeper ex_shared) in
+  k_acct k 1 = None /\ option_map ka_code (k_acct k 2) = Some 3 /\ k_code k 3 = true.
+Proof. vm_compute. repeat split. Qed.
